@@ -712,6 +712,11 @@ func (g *G) command(depth int) []ref.Node {
 		return []ref.Node{n}
 	case 14:
 		name := g.newLetName()
+		if g.O.LetShadow && g.R.P(1, 3) {
+			if s := g.shadowCandidate(TStr); s != "" {
+				name = s
+			}
+		}
 		n := &ref.LetContent{Name: name, Body: g.Block(depth-1, 2)}
 		g.push(&binding{name: name, ty: TStr, kind: "let"})
 		return []ref.Node{n}
